@@ -4,6 +4,7 @@ import (
 	"fmt"
 	"go/ast"
 	"go/constant"
+	"go/token"
 	"go/types"
 	"sort"
 	"strings"
@@ -406,6 +407,311 @@ func ruleFlagsEffects(c *Ctx) {
 			return false
 		}
 		check(key, c.P.Pos(r.Call.Pos()), "native method "+r.Name, r.Flags, es, wit, legacy)
+	}
+	if c.Property == "C16" { // the clause is about the allow-call flag; C04 uses this rule for the write/notify flags only
+		paymentCallbackClause(c, regs, legacyOf(byGrpKeys(regs), regs))
+	}
+}
+
+// paymentCallbackClause: the tabled cut above (postTransfer -> CallFromNative) keeps the type-based graph from
+// charging every minting native with "calls a contract": most of them pass callOnPayment=false. The cut must not hide
+// the paths on which the flag is true. The boolean parameter that gates the callback is found in postTransfer itself
+// (the CallFromNative site is unreachable when it is false) and traced back through the callers that pass it along;
+// a function that passes the constant true is a *source*. A native method registered without AllowCall whose
+// handler reaches a source calls the receiver's onNEP17Payment from a context that has no AllowCall.
+func paymentCallbackClause(c *Ctx, regs *Regs, legacy func(r *NativeReg, m string) bool) {
+	g := c.P.MRG()
+	var post *FuncDecl
+	for _, fd := range c.P.AllFuncDecls() {
+		if fd.Decl.Body != nil && fd.Obj.Name() == "postTransfer" && pkgRel(fd.Pkg.Types) == "pkg/core/native" {
+			post = fd
+		}
+	}
+	if post == nil {
+		c.Lost("payment-callback.anchor", "postTransfer not found")
+		return
+	}
+	f := c.P.NewFuncCFG(post)
+	sites := f.CallSites("pkg/core/interop/contract.CallFromNative")
+	if len(sites) == 0 {
+		c.Note("payment-callback", "postTransfer no longer calls CallFromNative")
+		return
+	}
+	sig := post.Obj.Type().(*types.Signature)
+	gate := -1
+	for i := 0; i < sig.Params().Len(); i++ {
+		if b, ok := sig.Params().At(i).Type().Underlying().(*types.Basic); !ok || b.Kind() != types.Bool {
+			continue
+		}
+		live := f.reach(f.Entry(), nil, symAssume(fmt.Sprintf("param#%d", i), false))
+		dead := true
+		for _, s := range sites {
+			if _, ok := live[s.blk]; ok {
+				dead = false
+			}
+		}
+		if dead {
+			gate = i
+		}
+	}
+	if gate < 0 {
+		c.Unclassified("payment-callback.gate", c.P.Pos(post.Decl.Pos()), "no boolean parameter of postTransfer switches the payment callback off")
+		return
+	}
+	type pslot struct {
+		name string // method/function name
+		n    int    // number of parameters
+		idx  int
+	}
+	work := []pslot{{post.Obj.Name(), sig.Params().Len(), gate}}
+	done := map[pslot]bool{}
+	sources := map[*ssa.Function]string{}
+	for len(work) > 0 {
+		w := work[0]
+		work = work[1:]
+		if done[w] {
+			continue
+		}
+		done[w] = true
+		for _, fd := range c.P.AllFuncDecls() {
+			if fd.Decl.Body == nil || pkgRel(fd.Pkg.Types) != "pkg/core/native" {
+				continue
+			}
+			info := fd.Pkg.TypesInfo
+			fsig := fd.Obj.Type().(*types.Signature)
+			ast.Inspect(fd.Decl.Body, func(x ast.Node) bool {
+				call, ok := x.(*ast.CallExpr)
+				if !ok || len(call.Args) <= w.idx {
+					return true
+				}
+				cf := calleeFunc(info, call)
+				if cf == nil || cf.Name() != w.name {
+					return true
+				}
+				if cs, ok := cf.Type().(*types.Signature); !ok || cs.Params().Len() != w.n {
+					return true
+				}
+				arg := ast.Unparen(call.Args[w.idx])
+				if v, ok := boolConst(info, arg); ok {
+					if v {
+						if fn := c.P.SSAFunc(fd.Obj); fn != nil {
+							sources[fn] = c.P.Pos(call.Pos())
+						}
+					}
+					return true
+				}
+				if id, ok := arg.(*ast.Ident); ok {
+					for j := 0; j < fsig.Params().Len(); j++ {
+						if info.ObjectOf(id) == fsig.Params().At(j) {
+							work = append(work, pslot{fd.Obj.Name(), fsig.Params().Len(), j})
+							return true
+						}
+					}
+				}
+				c.Unclassified("payment-callback.arg."+FuncKey(fd.Obj), c.P.Pos(call.Pos()), "the payment-callback switch is neither a constant nor a parameter passed along")
+				return true
+			})
+		}
+	}
+	c.Floor("functions that switch the payment callback on", len(sources), 2)
+	// hardfork order
+	hfVal := map[string]int64{}
+	if cp := c.P.Pkg("pkg/config"); cp != nil {
+		for _, nm := range cp.Types.Scope().Names() {
+			if k, ok := cp.Types.Scope().Lookup(nm).(*types.Const); ok && namedTypeIs(k.Type(), "pkg/config", "Hardfork") {
+				if v, ok := constant.Int64Val(constant.ToInt(k.Val())); ok {
+					hfVal[nm] = v
+				}
+			}
+		}
+	}
+	for _, r := range regs.Natives {
+		if r.Handler == nil || !r.FlagsKnown || r.Flags&regs.Bits.AllowCall != 0 {
+			continue
+		}
+		// the registration is active in [From, Till): what every hardfork test answers while it runs
+		base := map[string]bool{}
+		for nm, v := range hfVal {
+			for _, callee := range []string{"pkg/core/interop.(*Context).IsHardforkEnabled"} {
+				k := callee + "(pkg/config." + nm + ")"
+				if fv, ok := hfVal[r.From]; ok && r.From != "" && v <= fv {
+					base[k] = true
+				}
+				if tv, ok := hfVal[r.Till]; ok && r.Till != "" && v >= tv {
+					base[k] = false
+				}
+			}
+		}
+		hit, path := feasibleReach(c, g, r.Handler, sources, base)
+		if hit == nil {
+			continue
+		}
+		key := fmt.Sprintf("native.%s#%d.payment-callback", r.Name, r.Ordinal)
+		if legacy != nil && legacy(r, "C") {
+			c.OK(key, c.P.Pos(r.Call.Pos()), "legacy registration superseded by a successor with AllowCall")
+			continue
+		}
+		c.Fail(key, c.P.Pos(r.Call.Pos()), fmt.Sprintf("native method %s is registered without AllowCall, but its handler reaches %s, which mints GAS with the payment callback switched on (%s): the receiver's onNEP17Payment is called from a context that has no AllowCall", r.Name, FnKey(hit), sources[hit]), path...)
+	}
+}
+
+// feasibleReach searches the call graph from `from` for a function of `targets`, following only call sites that are
+// reachable in their caller's CFG under (a) the assumptions of `base` and (b) the boolean parameters the previous call
+// fixed to constants. Function literals have no CFG of their own here: their edges are all followed.
+func feasibleReach(c *Ctx, g *MRG, from *ssa.Function, targets map[*ssa.Function]string, base map[string]bool) (*ssa.Function, []string) {
+	type state struct {
+		fn  *ssa.Function
+		key string
+	}
+	seen := map[state]bool{}
+	var hit *ssa.Function
+	var hitPath []string
+	var walk func(fn *ssa.Function, params map[int]bool, path []string, depth int)
+	walk = func(fn *ssa.Function, params map[int]bool, path []string, depth int) {
+		if hit != nil || depth > 12 {
+			return
+		}
+		var ks []string
+		for i, v := range params {
+			ks = append(ks, fmt.Sprintf("%d=%v", i, v))
+		}
+		sort.Strings(ks)
+		st := state{fn, strings.Join(ks, ",")}
+		if seen[st] {
+			return
+		}
+		seen[st] = true
+		var f *FuncCFG
+		if obj, _ := fn.Object().(*types.Func); obj != nil {
+			if fd := c.P.DeclOf(obj); fd != nil && fd.Decl.Body != nil {
+				f = c.P.NewFuncCFG(fd)
+			}
+		}
+		var live map[*cfg.Block]*cfg.Block
+		if f != nil {
+			as := &Assume{Sym: map[string]bool{}}
+			for k, v := range base {
+				as.Sym[k] = v
+			}
+			for i, v := range params {
+				as.Sym[fmt.Sprintf("param#%d", i)] = v
+			}
+			live = f.reach(f.Entry(), nil, as)
+		}
+		siteLive := func(pos token.Pos) (bool, *ast.CallExpr) {
+			if f == nil || !pos.IsValid() {
+				return true, nil
+			}
+			found := false
+			var call *ast.CallExpr
+			for _, b := range f.G.Blocks {
+				if !b.Live {
+					continue
+				}
+				for _, nd := range b.Nodes {
+					if nd.Pos() <= pos && pos < nd.End() {
+						found = true
+						if _, ok := live[b]; ok {
+							inspectNoLit(nd, func(x ast.Node) bool {
+								if ce, ok := x.(*ast.CallExpr); ok && ce.Lparen == pos {
+									call = ce
+								}
+								return true
+							})
+							return true, call
+						}
+					}
+				}
+			}
+			return !found, nil // not located in the function's own blocks (inside a literal): follow
+		}
+		if pos, ok := targets[fn]; ok {
+			_ = pos
+			// the call that passes `true` must itself be live
+			okSite := f == nil
+			if f != nil {
+				ast.Inspect(f.Body, func(x ast.Node) bool {
+					if ce, ok := x.(*ast.CallExpr); ok && c.P.Pos(ce.Pos()) == targets[fn] {
+						if l, _ := siteLive(ce.Lparen); l {
+							okSite = true
+						}
+					}
+					return true
+				})
+			}
+			if okSite {
+				hit, hitPath = fn, append(append([]string{}, path...), FnKey(fn))
+				return
+			}
+		}
+		nd := g.Nodes[fn]
+		if nd == nil {
+			return
+		}
+		for _, e := range nd.Out {
+			if hit != nil {
+				return
+			}
+			pos := token.NoPos
+			if e.Site != nil {
+				pos = e.Site.Pos()
+			}
+			l, call := siteLive(pos)
+			if !l {
+				continue
+			}
+			next := map[int]bool{}
+			if call != nil && f != nil {
+				for j, a := range call.Args {
+					a = ast.Unparen(a)
+					if v, ok := boolConst(f.Info, a); ok {
+						next[j] = v
+					} else if id, ok := a.(*ast.Ident); ok {
+						if pv, ok := f.Info.ObjectOf(id).(*types.Var); ok {
+							if pi, isP := f.paramIdx[pv]; isP {
+								if v, ok := params[pi]; ok {
+									next[j] = v
+								}
+							}
+						}
+					}
+				}
+			}
+			walk(e.Callee.Fn, next, append(path, fmt.Sprintf("%s  (call at %s)", FnKey(fn), c.P.Pos(pos))), depth+1)
+		}
+	}
+	walk(from, map[int]bool{}, nil, 0)
+	return hit, hitPath
+}
+
+func byGrpKeys(regs *Regs) map[[2]string][]*NativeReg {
+	m := map[[2]string][]*NativeReg{}
+	for _, r := range regs.Natives {
+		o := "?"
+		if r.Owner != nil {
+			o = FuncKey(r.Owner)
+		}
+		m[[2]string{o, r.Name}] = append(m[[2]string{o, r.Name}], r)
+	}
+	return m
+}
+
+func legacyOf(byGrp map[[2]string][]*NativeReg, regs *Regs) func(r *NativeReg, m string) bool {
+	return func(r *NativeReg, m string) bool {
+		if r.Till == "" {
+			return false
+		}
+		o := "?"
+		if r.Owner != nil {
+			o = FuncKey(r.Owner)
+		}
+		bit := map[string]uint64{"W": regs.Bits.WriteStates, "N": regs.Bits.AllowNotify, "C": regs.Bits.AllowCall}[m]
+		for _, o2 := range byGrp[[2]string{o, r.Name}] {
+			if o2 != r && o2.From == r.Till && o2.Flags&bit != 0 && o2.Flags&r.Flags == r.Flags {
+				return true
+			}
+		}
+		return false
 	}
 }
 
